@@ -656,6 +656,7 @@ LAYOUT_CORE = [
     # spans of values whose size is no power of two between strongly aligned neighbours
     "P:Amp8,F:Amp8@16,P:u8", "C:u32,V:bptr", "P:f64@8,F:B12@8,P:f64@8", "C:u64@8,V:B12", "P:u8,C:u32,V:B24@16,P:u32@16", "F:B20@8,C:u16,V:B6@8,P:u64@8", "C:u64@8,V:B12@8",
 ]
+LAYOUT_BIG = ["C:u32,V:char,P:f64@512", "P:u8,F:char,P:u32@1024", "C:u16,V:u8,F:u16@512,P:u8", "F:u64@8,P:u32", "P:u16,F:char", "F:B24,F:u16@4", "C:u32,V:u64@8,P:u8", "P:u8,F:B12@512,F:u8,C:u32,V:u16@1024"]
 
 
 def layout_family(rng, count):
@@ -707,6 +708,12 @@ def layout_units(prop, tier, seed):
             a = {"seed": seed, "max-cap": 6 if tier == "quick" else 12, "max-span": 5 if tier == "quick" else 11}
             n_cases = len(grp) * cases_per_cfg
             units.append(Unit("layout", ";".join(grp), None, fl, a, n_cases if fl != "casan" else n_cases // 3, batch=len(grp) * 4, label="layout|group%d|%s" % (i // per_unit, fl)))
+    # 'big' unit: alignments of 512 / 1024 behind more than 256 bytes of the same element, spans of hundreds of items, blocks of
+    # 16 KiB and more (the histories elsewhere stay below a few hundred bytes per element and a few KiB per block)
+    for fl in flavours:
+        a = {"seed": seed, "max-cap": 8 if tier == "quick" else 24, "max-span": 600 if tier == "quick" else 1500}
+        n_cases = len(LAYOUT_BIG) * (25 if tier == "quick" else 100)
+        units.append(Unit("layout", ";".join(LAYOUT_BIG), None, fl, a, n_cases if fl != "casan" else n_cases // 3, batch=len(LAYOUT_BIG) * 5, label="layout|big|%s" % fl))
     return units
 
 
